@@ -24,11 +24,21 @@
                               NO relation between the pool maximum and the nesting depth is needed.
    C03n_nothing_lost          in such a state every pushed operation has run, with its body
    C03n_needs_sticky_notify_refuted   without f_sticky_notify a nested program gets stuck with pool maximum 1 (vm_compute)
+   C10n_blocked_objects_do_not_stop_the_others   C10 with nesting.  B0: activations frozen inside a closure (frozen_ok: at FDRrun / FROrun /
+                              FSIrun - a pool thread or a caller blocked on a gate inside a job); nobody outside B0 can move; the pool has
+                              a thread that is neither frozen nor suspended, or may still spawn one (npool_free).  Then every queue is Idle
+                              and empty unless it is run by an activation that is BLOCKED BECAUSE OF A FROZEN ONE ([bf]: frozen itself;
+                              suspended while its body is blocked; waiting in a nested sync whose job is stored in / held by a blocked
+                              activation); every other activation has finished (or was never started), every other pool thread is dormant.
+   C05n_drop_*                Desync::drop = sync(free), issued by any activation - e.g. the body of a job of ANOTHER object (nested
+                              operations never go to the object whose job is running: nwf): it runs after every operation on q whose call
+                              returned before, and if it is the last operation on q nothing of q runs after it.
    Fully proved. *)
 From stdpp Require Import list numbers option.
 From L0 Require Import Types.
 From L1 Require Import Model Own Shape Stuck Live Wait Help Final Pool.
 From L1h Require Import Hist Abs Sim HistFacts.
+From L1g Require Import Frozen.
 From L1n Require Import Model Proj NInv Quiet Main Wf Examples.
 From Gen Require Import Tables.
 
@@ -92,6 +102,28 @@ Theorem C03n_nothing_lost : forall (T : tables) (F : facts),
     forall qo k, ns.(ops) !! i = Some (qo, Some k) -> k ∈ ns.(started) /\ done_b ns.(base) k = true.
 Proof. exact nothing_lost_n. Qed.
 
+Theorem C10n_blocked_objects_do_not_stop_the_others : forall (T : tables) (F : facts),
+  core_tables T -> own_conditions T -> imm_conditions T -> F.(f_dormant_blocks) = true -> F.(f_sticky_notify) = true ->
+  forall nq mx ntop (P : prog), nwf nq ntop P -> 1 <= mx ->
+  forall tr ns B0, nrun T F ntop P (ninit nq mx P) tr = Some ns ->
+    frozen_ok ns.(base) B0 -> nterminal_except T F ntop P B0 ns -> npool_free T F ns -> nquiet_except ntop P B0 ns.
+Proof. exact L_quiet_frozen_n. Qed.
+
+Theorem C05n_drop_after_returned : forall (T : tables) (F : facts), own_conditions T -> imm_conditions T ->
+  forall nq mx ntop (P : prog) tr ns A D q ka,
+    nrun T F ntop P (ninit nq mx P) tr = Some ns ->
+    Call A q ka ∈ ns.(nh) -> before (Ret A) (Call D q KSync) ns.(nh) ->
+    forall h3 h4, ns.(nh) = h3 ++ Run D q :: h4 -> Run A q ∈ h3.
+Proof. exact drop_after_returned_n. Qed.
+Theorem C05n_drop_runs_last : forall (T : tables) (F : facts), own_conditions T -> imm_conditions T ->
+  forall nq mx ntop (P : prog) tr ns D q h1 h2,
+    nrun T F ntop P (ninit nq mx P) tr = Some ns ->
+    ns.(nh) = h1 ++ Call D q KSync :: h2 ->
+    (forall B k, B <> D -> Call B q k ∈ ns.(nh) -> finished B h1) ->
+    forall h3 h4, ns.(nh) = h3 ++ Run D q :: h4 ->
+      (forall B, B <> D -> Push B q ∈ ns.(nh) -> Run B q ∈ h3) /\ (forall B, Run B q ∉ h4).
+Proof. exact drop_runs_last_n. Qed.
+
 (* without the sticky notification: D0[(S1[])] + S1[], pool maximum 1, ends in a state in which nobody can move, the body waits
    in sync_background on object 1, object 1 is Pending in the schedule and the only pool thread is the one waiting for the body *)
 Theorem C03n_needs_sticky_notify_refuted :
@@ -133,6 +165,36 @@ Proof.
   exact (conj exD_wf (match exD_run with ex_intro _ ns (conj H1 (conj H2 H3)) => ex_intro _ ns (conj H1 (conj (nterminal_b_sound _ _ _ _ _ H2) H3)) end)).
 Qed.
 
+(* C10n: caller 1 frozen inside its sync closure on object 1; the pool thread (actor 3) is suspended in object 0's job, whose body
+   (activation 2) waits in its nested sync behind caller 1; nobody else can move; the pool may still spawn its second thread *)
+Example C10n_hypotheses_hold :
+  exists ns, nrun gen_tables gen_facts 2 exS_prog (ninit 2 2 exS_prog) exF_tr = Some ns /\ nwf 2 2 exS_prog /\
+    frozen_ok ns.(base) [1] /\ nterminal_except gen_tables gen_facts 2 exS_prog [1] ns /\ npool_free gen_tables gen_facts ns /\
+    tops ns = [Some (FTop []); Some (FSIrun 1); Some (FSBwait 1); Some (FDRrun 0 (JPlain 0))] /\
+    (owner <$> ns.(base).(queues)) = [Some 3; Some 1] /\ ns.(started) = [2].
+Proof.
+  destruct exF_run as (ns & H1 & H2 & H3 & H4 & H5 & H6 & H7). exists ns. split; [exact H1|]. split; [exact exS_wf|]. split; [|split; [|split]].
+  - clear H1 H3 H4 H5 H6 H7. intros a Ha. apply elem_of_list_singleton in Ha as ->. unfold tops in H2.
+    destruct (actors (base ns)) as [|a0 [|a1 r]] eqn:E; try done. cbn in H2. injection H2 as _ H2 _.
+    destruct (stack a1) as [|fr rest] eqn:Es; [done|]. injection H2 as ->. exists a1, (FSIrun 1), rest. split; [reflexivity|]. split; [exact Es|exact I].
+  - by apply nterminal_except_b_sound.
+  - left. rewrite H5, H6. lia.
+  - exact (conj H2 (conj H4 H7)).
+Qed.
+(* C05n: the drop of object 1 (operation 2 = sync(free)) is issued by the body of a job of object 0 *)
+Example C05n_hypotheses_hold :
+  exists ns, nrun gen_tables gen_facts 1 exX_prog (ninit 2 1 exX_prog) exX_tr = Some ns /\
+    ns.(ops) = [(1, None); (0, Some 1); (1, None)] /\
+    ns.(nh) = [Call 0 1 KDesync; Push 0 1; Ret 0; Call 1 0 KDesync; Push 1 0; Ret 1; Run 0 1] ++ Call 2 1 KSync :: [Push 2 1; Run 2 1; Ret 2; Run 1 0] /\
+    (forall B k, B <> 2 -> Call B 1 k ∈ ns.(nh) -> finished B [Call 0 1 KDesync; Push 0 1; Ret 0; Call 1 0 KDesync; Push 1 0; Ret 1; Run 0 1]) /\
+    ns.(nh) = [Call 0 1 KDesync; Push 0 1; Ret 0; Call 1 0 KDesync; Push 1 0; Ret 1; Run 0 1; Call 2 1 KSync; Push 2 1] ++ Run 2 1 :: [Ret 2; Run 1 0].
+Proof.
+  destruct exX_run as (ns & H1 & H2 & H3 & _). exists ns. split; [exact H1|]. split; [exact H3|]. clear H1 H3. rewrite H2. split; [reflexivity|]. split; [|reflexivity].
+  intros B k Hne Hc. repeat (apply elem_of_cons in Hc as [Hc|Hc]; [try discriminate; injection Hc as -> _|]); try by apply elem_of_nil in Hc.
+  - left. right; right. by left.
+  - done.
+Qed.
+
 Print Assumptions L1n_runs_are_L1_runs.
 Print Assumptions C01n_one_runner_per_object.
 Print Assumptions C01n_ownership_invariant.
@@ -144,6 +206,11 @@ Print Assumptions C04n_sync_runs_own_closure.
 Print Assumptions C09n_busy_never_runs.
 Print Assumptions C03n_quiescent_is_complete.
 Print Assumptions C03n_nothing_lost.
+Print Assumptions C10n_blocked_objects_do_not_stop_the_others.
+Print Assumptions C05n_drop_after_returned.
+Print Assumptions C05n_drop_runs_last.
+Print Assumptions C10n_hypotheses_hold.
+Print Assumptions C05n_hypotheses_hold.
 Print Assumptions C03n_needs_sticky_notify_refuted.
 Print Assumptions C03n_hypotheses_hold.
 Print Assumptions C03n_three_levels.
